@@ -23,6 +23,8 @@ func checkC19(c *Ctx) {
 		c.fatal = append(c.fatal, "v2 module not loaded")
 		return
 	}
+	checkV2NodeHolders(c, l, "OWN-node-holders")
+	checkV2ShardResolution(c, l, "FLOW-shard-resolution")
 	// ---- (1)
 	want := []string{
 		"V(subtreeHeight) V(size) V(Version(nodeKey)) ?leaf B(key) B(sha256.Sum256(value))",
@@ -433,4 +435,120 @@ func checkEvictGuards(c *Ctx, l *Loaded) {
 	}
 	c.decide(R, "deepHash detaches a written leaf whenever saveLeaves recycles it", l.pos(dh.Pos()), join(detach) == join(recycle),
 		"both controlled by {"+join(recycle)+"}", "deepHash detaches leaves under {"+join(detach)+"} but saveLeaves recycles them under {"+join(recycle)+"}: where the detach does not happen the parent keeps a pointer to a node the pool resets and hands out again")
+}
+
+// checkV2NodeHolders (C19): v2 recycles nodes through a pool and detaches
+// (evicts) them at checkpoints; the structures that may hold a node across
+// operations are the ones those mechanisms know about — the root and the two
+// pending-write lists.  Any other field of Tree that holds a *Node (a "last
+// leaf" memo, a cursor) keeps serving a node after it was detached or recycled.
+func checkV2NodeHolders(c *Ctx, l *Loaded, rule string) {
+	c.rule(rule, "no field of the v2 Tree retains nodes besides root / leaves / branches", 3)
+	T := l.NamedType("", "Tree")
+	N := l.NamedType("", "Node")
+	if T == nil || N == nil {
+		c.anchorMissing(rule, "v2 Tree / Node")
+		return
+	}
+	st, ok := T.Underlying().(*types.Struct)
+	if !ok {
+		c.anchorMissing(rule, "v2 Tree is not a struct")
+		return
+	}
+	allowed := map[string]bool{"root": true, "leaves": true, "branches": true}
+	var holdsNode func(t types.Type, d int) bool
+	holdsNode = func(t types.Type, d int) bool {
+		if d > 4 {
+			return false
+		}
+		switch x := t.(type) {
+		case *types.Pointer:
+			if n, ok := x.Elem().(*types.Named); ok && n.Obj() == N.Obj() {
+				return true
+			}
+			return false // pointers to other structs (pool, sql) own their nodes under their own rules
+		case *types.Slice:
+			return holdsNode(x.Elem(), d+1)
+		case *types.Array:
+			return holdsNode(x.Elem(), d+1)
+		case *types.Map:
+			return holdsNode(x.Elem(), d+1) || holdsNode(x.Key(), d+1)
+		case *types.Named:
+			if x.Obj() == N.Obj() {
+				return true
+			}
+		}
+		return false
+	}
+	n := 0
+	for i := 0; i < st.NumFields(); i++ {
+		f := st.Field(i)
+		if !holdsNode(f.Type(), 0) {
+			continue
+		}
+		n++
+		c.decide(rule, "Tree."+f.Name()+" holds nodes", l.pos(f.Pos()), allowed[f.Name()], "known to eviction and to the pool hand-back",
+			"the v2 Tree has a field that retains a node across operations and that eviction (checkpoint: children detached) and the pool hand-back do not know about: a lookup answered from it returns the value of a node that was detached or recycled while the tree has moved on")
+	}
+	if n < 3 {
+		c.anchorMissing(rule, "fewer than 3 node-holding fields in v2 Tree")
+	}
+}
+
+// checkV2ShardResolution (C19, C20): with sharded trees the table a node lives
+// in is the shard found for the node's version by the VersionRange search;
+// getShard returns nothing else on that edge (no positional shortcut: a node
+// written exactly at a checkpoint version belongs to that checkpoint's shard).
+func checkV2ShardResolution(c *Ctx, l *Loaded, rule string) {
+	c.rule(rule, "with sharded trees getShard answers only through the version-range search", 1)
+	gs := l.Func("", "*SqliteDb.getShard")
+	if gs == nil || len(gs.Params) < 2 {
+		c.anchorMissing(rule, "v2 SqliteDb.getShard")
+		return
+	}
+	ver := gs.Params[1]
+	// the unsharded edge: guarded by opts.ShardTrees
+	var unsharded []guard
+	for _, b := range gs.Blocks {
+		iff := ifOf(b)
+		if iff == nil {
+			continue
+		}
+		if strings.Contains(roleOf(l, iff.Cond, "", 0), "ShardTrees") {
+			unsharded = append(unsharded, guard{iff, 1}) // `if !ShardTrees {…}`: SSA tests the flag, false edge = unsharded
+		}
+	}
+	ok := true
+	var bad ssa.Instruction
+	n := 0
+	for _, r := range returnsOf(gs) {
+		if errNilness(retVal(r, 1), r.Block(), 0) > 0 {
+			continue
+		}
+		if guardsEffect(unsharded, r) {
+			continue
+		}
+		n++
+		v := stripTrivial(retVal(r, 0))
+		call, isCall := v.(*ssa.Call)
+		good := false
+		if isCall {
+			if f := staticCallee(&call.Call); f != nil && (f.Name() == "FindMemoized" || f.Name() == "Find") {
+				for _, a := range call.Call.Args {
+					if stripTrivial(a) == ssa.Value(ver) {
+						good = true
+					}
+				}
+			}
+		}
+		if !good {
+			ok, bad = false, r
+		}
+	}
+	pos := l.pos(gs.Pos())
+	if bad != nil {
+		pos = l.ipos(bad)
+	}
+	c.decide(rule, "getShard (sharded) returns the result of the version-range search for its argument", pos, ok && n > 0, "every sharded success return is Find / FindMemoized(version)",
+		"with sharded trees getShard can answer without the version-range search (a positional shortcut): a node written exactly at a checkpoint version is looked up in the wrong shard, the lazy load fails with `node not found` and Get / Set panic")
 }
